@@ -103,6 +103,12 @@ def analyse(model, fn, contracts, fields_written_by=None, assume_entry=None, cla
         ok = st.lin_le0(need)
         # definitely outside: the state proves index >= bound (resp. > bound) on this path
         past = (not ok) and st.lin_le0((B - total).shift(1) if onepast else (B - total))
+        lbn = contract.lower_bounds.get(buf) or contract.lower_bounds.get(Zone.pretty_term(buf))
+        if lbn:
+            LB = bound_lin(st, lbn)
+            if LB is not None and st.lin_le0((total - LB).shift(1)):
+                # index <= lower - 1: definitely in front of the part this function owns
+                return (False, "index %s is proven < %s on this path" % (plin(total), lbn), buf, B, "below")
         return (ok, "need %s %s %s" % (plin(total), "<=" if onepast else "<", plin(B)) + (" -- and the path proves the opposite" if past else ""), buf, B, past)
 
     def visit(b, i, e, st):
@@ -135,7 +141,7 @@ def analyse(model, fn, contracts, fields_written_by=None, assume_entry=None, cla
                 terms |= st.expand(il).terms()
             terms |= B.terms()
             obs.append(Ob("ZB-read", fn, nid, fn.text(nid), ok, why,
-                          {"facts": fmt_state(st, terms)[:12], "block": b["id"], "past": bool(len(r) > 4 and r[4])}))
+                          {"facts": fmt_state(st, terms)[:12], "block": b["id"], "past": bool(len(r) > 4 and r[4] is True), "below": bool(len(r) > 4 and r[4] == "below")}))
         elif k == "UnaryOperator" and n["op"] == "*":
             sub = n["ch"][0]
             pf = z.ptr_form(st, sub)
@@ -146,7 +152,7 @@ def analyse(model, fn, contracts, fields_written_by=None, assume_entry=None, cla
             r = check_access(b, st, nid, sub, Lin(), "deref")
             ok, why, buf, B = r[:4]
             obs.append(Ob("ZB-read", fn, nid, fn.text(nid), ok, why,
-                          {"facts": fmt_state(st, st.expand(pf[1]).terms() | B.terms())[:12], "block": b["id"], "past": bool(len(r) > 4 and r[4])}))
+                          {"facts": fmt_state(st, st.expand(pf[1]).terms() | B.terms())[:12], "block": b["id"], "past": bool(len(r) > 4 and r[4] is True), "below": bool(len(r) > 4 and r[4] == "below")}))
         elif k in ("CallExpr", "CXXMemberCallExpr"):
             seen.add(nid)
             nm, _ = fn.callee_name(nid)
@@ -254,7 +260,10 @@ def analyse(model, fn, contracts, fields_written_by=None, assume_entry=None, cla
                         r = check_access(b, st, nid, n["ch"][0], z.lin(st, n["ch"][1]), "subscript")
                     else:
                         r = check_access(b, st, nid, n["ch"][0], Lin(), "deref")
-                    if r is not None and len(r) > 4 and r[4]:
+                    if r is not None and len(r) > 4 and r[4] == "below":
+                        o.detail["below"] = True
+                        o.why = r[1]
+                    elif r is not None and len(r) > 4 and r[4]:
                         o.detail["past"] = True
                         o.why += " -- and on the path entering from block %s the opposite is proven: %s" % (pb["id"], "; ".join(fmt_state(st, st.expand(z.lin(st, n["ch"][1]) if n["k"] == "ArraySubscriptExpr" else Lin()).terms() | r[3].terms())[:6]))
                 z.transfer(fn, st, e, b)
